@@ -298,6 +298,7 @@ func (d *lmtpDelivery) BodyNonAtomic(ctx context.Context, sc module.StatusCollec
 		for _, rcpt := range d.rcpts {
 			sc.SetStatus(rcpt, modErr)
 		}
+		return
 	}
 	defer r.Close()
 
